@@ -288,5 +288,9 @@ func JBase64(content []byte) ([]byte, bool) {
 	return v, err == nil
 }
 
+// B64Text returns the standard base64 text of b (under vsym: a placeholder the base64 decoder stub
+// resolves back to b).
+func B64Text(b []byte) string { return base64.StdEncoding.EncodeToString(b) }
+
 // GhostReset forgets the ghost tokens of a previous conversion (no-op natively).
 func GhostReset() {}
